@@ -105,6 +105,7 @@ inductive Line
   | word (w : String)
   | row (vals : List Txt)
   | obs (key : String) (date val : Txt)
+  | ud (name : String) (val : Txt)        -- `USER_DEFINED_<name> = <val>`
 deriving DecidableEq, Repr
 
 structure KvnSt where
@@ -122,13 +123,24 @@ def appendLast (ms : List Dict) (k : String) (v : Val) : Option (List Dict) :=
   | [] => none
   | m :: r => some ((setKey m k v :: r).reverse)
 
+/-- the `MAN_…` keys the writers produce (`key.startswith("MAN_")` is modelled on these) -/
+def manKeys : List String :=
+  ["MAN_EPOCH_IGNITION", "MAN_DURATION", "MAN_DELTA_MASS", "MAN_REF_FRAME", "MAN_DV_1", "MAN_DV_2", "MAN_DV_3"]
+
+/-- user-defined lines are kept in a sub-dict under "USER_DEFINED" (re-encoding of the key prefix
+`USER_DEFINED_`, so that no string is computed; same overwrite-on-equal-name behaviour) -/
+def addUd (d : Dict) (name : String) (v : Val) : Dict :=
+  match d.lookup "USER_DEFINED" with
+  | some (.dict u) => setKey d "USER_DEFINED" (.dict (setKey u name v))
+  | _ => setKey d "USER_DEFINED" (.dict [(name, v)])
+
 /-- loop body of `kvn2dict` -/
 def kvnStep (st : KvnSt) : Line → R KvnSt
   | .blank => .ok { st with prev := none }
   | .comment c => .ok { st with prev := some c }
   | .kv key val unit =>
     let f := Val.field val (unitAttrib unit)
-    if key.startsWith "MAN_" then
+    if manKeys.contains key then
       if key = "MAN_EPOCH_IGNITION" then
         let data := match st.data.lookup "maneuvers" with
           | none => st.data ++ [("maneuvers", .list [])]
@@ -144,6 +156,7 @@ def kvnStep (st : KvnSt) : Line → R KvnSt
   | .word w => .ok { st with data := setKey st.data w (.field (.s "") []), prev := none }
   | .row _ => .ok { st with data := setKey st.data "<row>" (.field (.s "") []), prev := none }
   | .obs key _ v => .ok { st with data := setKey st.data key (.field v []), prev := none }
+  | .ud name v => .ok { st with data := addUd st.data name (.field v []), prev := none }
 
 def kvnFold : List Line → KvnSt → R KvnSt
   | [], st => .ok st
@@ -208,11 +221,10 @@ structure CovM where
   tri : List Txt              -- lower triangle, row by row (21 values)
 deriving DecidableEq, Repr
 
-def covKey (i j : Nat) : String := "C" ++ covElems[i]! ++ "_" ++ covElems[j]!
+def covKey (i j : Nat) : String := (covWriteKeys[i]!)[j]!
 
 /-- keys in the order of the writers' double loop -/
-def covKeys : List String :=
-  (List.range 6).flatMap fun i => (List.range (i + 1)).map fun j => covKey i j
+def covKeys : List String := covWriteKeys.flatten
 
 def aliasOut (tbl : List (String × String)) (f : String) : String := (tbl.lookup f).getD f
 def aliasIn (names : List String) (target : String) (f : String) : String := if names.contains f then target else f
@@ -256,7 +268,7 @@ structure Opm where
 deriving DecidableEq, Repr
 
 def svKeys : List String := ["X", "Y", "Z", "X_DOT", "Y_DOT", "Z_DOT"]
-def svUnit (k : String) : String := if k.endsWith "DOT" then "km/s" else "km"
+def svUnit (k : String) : String := if ["X_DOT", "Y_DOT", "Z_DOT"].contains k then "km/s" else "km"
 def kepKeys : List (String × Option String) :=
   [("SEMI_MAJOR_AXIS", some "km"), ("ECCENTRICITY", none), ("INCLINATION", some "deg"), ("RA_OF_ASC_NODE", some "deg"),
    ("ARG_OF_PERICENTER", some "deg"), ("TRUE_ANOMALY", some "deg"), ("GM", some "km**3/s**2")]
@@ -266,8 +278,8 @@ def frameOut (f : String) : R (String × String) :=
   | some cr => .ok cr
   | none => .error .valueError
 
-def header (type version : String) : List Line :=
-  [.kv ("CCSDS_" ++ type ++ "_VERS") (.s version) none, .kv "CREATION_DATE" (.s "now") none, .kv "ORIGINATOR" (.s "N/A") none]
+def header (versKey version : String) : List Line :=
+  [.kv versKey (.s version) none, .kv "CREATION_DATE" (.s "now") none, .kv "ORIGINATOR" (.s "N/A") none]
 
 def metaKvn (tag : Bool) (name id center frame scale : String) (extras : List (String × Txt)) : List Line :=
   (if tag then [Line.word "META_START"] else []) ++
@@ -294,12 +306,12 @@ def manKvn (own : String) (m : Man) : List Line :=
 
 def udKvn : Option (List (String × String)) → List Line
   | none => []
-  | some kvs => [.blank] ++ kvs.map fun (k, v) => Line.kv ("USER_DEFINED_" ++ k) (.s v) none
+  | some kvs => [.blank] ++ kvs.map fun (k, v) => Line.ud k (.s v)
 
 /-- `opm._dumps_kvn` -/
 def opmKvn (m : Opm) : R (List Line) := do
   let (center, rframe) ← frameOut m.frame
-  pure <| header "OPM" "2.0" ++ [.blank] ++ metaKvn true m.name m.id center rframe m.scale [] ++
+  pure <| header "CCSDS_OPM_VERS" "2.0" ++ [.blank] ++ metaKvn true m.name m.id center rframe m.scale [] ++
     [.comment "State Vector", .kv "EPOCH" m.epoch none] ++
     (svKeys.zip m.state).map (fun (k, v) => Line.kv k v (some (svUnit k))) ++
     (match m.kep with
@@ -351,7 +363,7 @@ def opmXml (m : Opm) : R Elem := do
 
 /-- the centre rule of the readers; only the Earth-centred branch is modelled -/
 def centreRule (center frame : String) : R String :=
-  if center.toLower = "earth" then .ok frame else .error .nameError
+  if ["EARTH", "Earth", "earth"].contains center then .ok frame else .error .nameError
 
 def keyErrToCcsds : R α → R α
   | .error .keyError => .error .ccsdsError
@@ -386,13 +398,14 @@ def loadSv (sv : Dict) : R (Txt × List Txt) := do
   pure (epoch, [x, y, z, vx, vy, vz])
 
 def kvnUd (data : Dict) : Option (List (String × String)) :=
-  let kvs := data.filterMap fun (k, v) =>
-    if k.startsWith "USER_DEFINED" then
+  match data.lookup "USER_DEFINED" with
+  | some (.dict u) =>
+    let kvs := u.filterMap fun (k, v) =>
       match v with
-      | .field (.s t) _ => some ((k.drop 13).toString, t)
+      | .field (.s t) _ => some (k, t)
       | _ => none
-    else none
-  if kvs.isEmpty then none else some kvs
+    if kvs.isEmpty then none else some kvs
+  | _ => none
 
 /-- `opm._loads_kvn` on the dict built by `kvn2dict` -/
 def opmFromKvnDict (data : Dict) : R Opm := do
@@ -495,7 +508,7 @@ def ommTleKeys : List (String × Option String) :=
 def ommKvn (m : Omm) : R (List Line) := do
   let (center, rframe) ← frameOut m.frame
   if ¬ m.hasTle then .error .attrError
-  pure <| header "OMM" "2.0" ++ [.blank] ++
+  pure <| header "CCSDS_OMM_VERS" "2.0" ++ [.blank] ++
     metaKvn false m.name m.id center rframe m.scale [("MEAN_ELEMENT_THEORY", .s "SGP/SGP4")] ++
     [.blank, .kv "EPOCH" m.epoch none] ++ (ommElemKeys.zip m.elems).map (fun ((k, u), v) => Line.kv k v u) ++
     [.kv "GM" (.s "398600.8") (some "km**3/s**2"), .blank, .kv "EPHEMERIS_TYPE" (.s "0") none, .kv "CLASSIFICATION_TYPE" (.s "U") none] ++
@@ -613,7 +626,7 @@ def segKvn (s : Seg) : R (List Line) := do
 /-- `oem._dumps_kvn` -/
 def oemKvn (m : Oem) : R (List Line) := do
   let segs ← m.mapM segKvn
-  pure <| header "OEM" "2.0" ++ [.blank] ++ (segs.map (· ++ [Line.blank, .blank, .blank])).flatten
+  pure <| header "CCSDS_OEM_VERS" "2.0" ++ [.blank] ++ (segs.map (· ++ [Line.blank, .blank, .blank])).flatten
 
 def segXml (s : Seg) : R Elem := do
   if s.points.isEmpty then .error .valueError
@@ -627,12 +640,17 @@ def oemXml (m : Oem) : R Elem := do
   let segs ← m.mapM segXml
   pure <| .node "oem" [headerXml, .node "body" segs]
 
+def setCovAt : List Point → Nat → CovM → List Point
+  | [], _, _ => []
+  | p :: ps, 0, c => { p with cov := some c } :: ps
+  | p :: ps, i + 1, c => p :: setCovAt ps i c
+
 /-- attach a covariance to the point with that epoch (`orbit_mapping[date]`) -/
 def attachCov (pts : List Point) (epoch : Txt) (c : CovM) : R (List Point) :=
   if pts.any (·.epoch = epoch) then
     -- the mapping keeps the *last* orbit with that date
     let idx := (pts.length - 1) - ((pts.reverse.findIdx? (·.epoch = epoch)).getD 0)
-    .ok (pts.mapIdx fun i p => if i = idx then { p with cov := some c } else p)
+    .ok (setCovAt pts idx c)
   else .error .ccsdsError
 
 structure OemSt where
@@ -677,8 +695,8 @@ def oemStep (st : OemSt) (l : Line) : R OemSt :=
     match st.cur with
     | none => .error .unboundLocal
     | some (mt, pts) => do
-      for k in ["REF_FRAME", "CENTER_NAME", "TIME_SYSTEM", "OBJECT_ID", "OBJECT_NAME"] do
-        if (mt.lookup k).isNone then throw Err.ccsdsError
+      if ¬ ["REF_FRAME", "CENTER_NAME", "TIME_SYSTEM", "OBJECT_ID", "OBJECT_NAME"].all (fun k => (mt.lookup k).isSome) then
+        throw Err.ccsdsError
       let center ← metaStr mt "CENTER_NAME"
       let frame ← metaStr mt "REF_FRAME"
       let frame ← centreRule center frame
@@ -723,6 +741,7 @@ def oemStep (st : OemSt) (l : Line) : R OemSt :=
       else .ok { st with covRows := rows }
     else .error .valueError
   | .obs _ _ _ => .error .valueError
+  | .ud _ _ => .error .valueError
 
 def oemFold : List Line → OemSt → R OemSt
   | [], st => .ok st
@@ -799,6 +818,11 @@ structure Tdm where
   obs : List Obs
 deriving DecidableEq, Repr
 
+/-- `PARTICIPANT_<i>`; sorting these keys as strings is sorting by `i` as long as `i ≤ 9` -/
+def participantKeys : List String :=
+  ["PARTICIPANT_1", "PARTICIPANT_2", "PARTICIPANT_3", "PARTICIPANT_4", "PARTICIPANT_5", "PARTICIPANT_6", "PARTICIPANT_7",
+   "PARTICIPANT_8", "PARTICIPANT_9"]
+
 def dedup [BEq α] : List α → List α
   | [] => []
   | x :: xs => x :: (dedup xs).filter (fun y => !(y == x))
@@ -814,7 +838,7 @@ def tdmMeta (scale : String) (path : List String) (set : List Obs) : List (Strin
   let idx := path.map fun p => (parts.idxOf p) + 1
   let types := dedup (set.map (·.kind))
   [("TIME_SYSTEM", Txt.s scale), ("START_TIME", (set.head?.map (·.epoch)).getD (.s "?")), ("STOP_TIME", (set.getLast?.map (·.epoch)).getD (.s "?"))] ++
-  parts.mapIdx (fun i p => ("PARTICIPANT_" ++ toString (i + 1), Txt.s p)) ++
+  (participantKeys.zip parts).map (fun (k, p) => (k, Txt.s p)) ++
   [("MODE", .s "SEQUENTIAL"), ("PATH", .l idx)] ++
   (if types.contains "Range" then [("RANGE_UNITS", Txt.s "km")] else []) ++
   (if types.contains "Azimut" then [("ANGLE_TYPE", Txt.s "AZEL")] else [])
@@ -824,28 +848,24 @@ def tdmSets (m : Tdm) : List (List String × List Obs) :=
 
 /-- `tdm._dumps_kvn` -/
 def tdmKvn (m : Tdm) : R (List Line) := do
+  if (tdmSets m).any (fun ps => (dedup ps.1).length > 9) then .error .valueError   -- more participants than modelled
   let segs ← (tdmSets m).mapM fun (path, set) => do
     let obs ← set.mapM fun o => do pure (Line.obs (← tdmName o.kind) o.epoch o.value)
     pure <| [Line.word "META_START"] ++ (tdmMeta m.scale path set).map (fun (k, v) => Line.kv k v none) ++
       [.word "META_STOP", .blank, .word "DATA_START"] ++ obs ++ [.word "DATA_STOP", .blank]
-  pure <| header "TDM" "1.0" ++ [.blank] ++ segs.flatten
+  pure <| header "CCSDS_TDM_VERS" "1.0" ++ [.blank] ++ segs.flatten
 
 /-- `tdm._dumps_xml` -/
 def tdmXml (m : Tdm) : R Elem := do
+  if (tdmSets m).any (fun ps => (dedup ps.1).length > 9) then .error .valueError
   let segs ← (tdmSets m).mapM fun (path, set) => do
     let obs ← set.mapM fun o => do
       pure (Elem.node "observation" [Elem.leaf "EPOCH" [] o.epoch, Elem.leaf (← tdmName o.kind) [] o.value])
     pure <| Elem.node "segment" [.node "metadata" ((tdmMeta m.scale path set).map fun (k, v) => Elem.leaf k [] v), .node "data" obs]
   pure <| .node "tdm" [headerXml, .node "body" segs]
 
-def insertSorted (x : String × Txt) : List (String × Txt) → List (String × Txt)
-  | [] => [x]
-  | y :: ys => if x.1 < y.1 then x :: y :: ys else y :: insertSorted x ys
-
-def sortMeta (m : List (String × Txt)) : List (String × Txt) := m.foldr insertSorted []
-
 def tdmPath (mt : List (String × Txt)) : R (List String) := do
-  let parts : List Txt := (sortMeta mt).filterMap fun (k, v) => if k.startsWith "PARTICIPANT_" then some v else none
+  let parts : List Txt := participantKeys.filterMap fun k => mt.lookup k
   match mt.lookup "PATH" with
   | some (.l idx) => idx.mapM fun i =>
       if i = 0 then
@@ -896,6 +916,7 @@ def tdmStep (st : TdmSt) (l : Line) : R TdmSt :=
     | [] => .error .unboundLocal
     | cur :: r => .ok { st with sets := ((cur ++ [{ kind := kind, path := st.path, epoch := date, value := v }]) :: r).reverse }
   | .row _ => .error .valueError
+  | .ud _ _ => .error .valueError
 
 def tdmFold : List Line → TdmSt → R TdmSt
   | [], st => .ok st
